@@ -261,3 +261,78 @@ pub fn record(args: &[String]) -> i32 {
     w.flush().ok();
     0
 }
+
+// ---------------------------------------------------------------------------------------------
+// The table INSIDE the engine, across searches (C15 "a result from a shallower search never replaces one
+// from a deeper search of the same position").  tt-replay / tt-record drive store / retrieve directly; anything
+// the Searcher does to its table between or around the stores (a generation counter advanced per search, an
+// ageing sweep) is invisible there.  Here one Searcher runs a sequence of real searches; after each one the
+// whole table is read back (verif_tt_entries) and joined with the table before it.  Only the join is done here:
+// for every key present before and after whose entry changed, [key, depth before, depth after].  TTSearchTrace.tla
+// judges.  Entries that disappeared are counted (eviction is the named deviation of TT.tla).
+// ---------------------------------------------------------------------------------------------
+pub fn searches(args: &[String]) -> i32 {
+    use crate::board::Board;
+    use crate::move_gen::MoveGenerator;
+    use crate::search::Searcher;
+    use std::collections::HashMap;
+    let seed: u64 = arg(args, "--seed", "1").parse().unwrap();
+    let roots: usize = arg(args, "--roots", "4").parse().unwrap();
+    let deep: u8 = arg(args, "--deep", "4").parse().unwrap();
+    let out = arg(args, "--out", "");
+    let mg = MoveGenerator::new();
+    let mut rng = rand::rngs::StdRng::seed_from_u64(seed);
+    // (the engine prints its info lines to stdout: events go to a file)
+    let mut w = std::io::BufWriter::new(std::fs::File::create(&out).unwrap());
+    for _ in 0..roots {
+        // a position from a random game (plies 0..40)
+        let mut b = Board::default();
+        let plies = rng.gen_range(0..40);
+        for _ in 0..plies {
+            let ms = mg.generate_moves(&b);
+            if ms.is_empty() {
+                break;
+            }
+            b.make_move(&ms[rng.gen_range(0..ms.len())]);
+        }
+        let ms = mg.generate_moves(&b);
+        if ms.is_empty() {
+            continue;
+        }
+        let child = b.clone_with_move(&ms[rng.gen_range(0..ms.len())]);
+        let plan: Vec<(Board, u8)> = vec![(b, deep), (b, 1), (b, 1), (b, 2), (child, deep.saturating_sub(1).max(1)), (b, 1), (b, deep)];
+        let mut s = Searcher::new();
+        let mut before: HashMap<u64, (u8, String)> = HashMap::new();
+        writeln!(w, "{}", json!({"ev":"ttnew","fen":crate::proj::project(&b)})).ok();
+        for (pos, d) in plan {
+            let r = std::panic::catch_unwind(std::panic::AssertUnwindSafe(|| s.find_best_move(&pos, d, None)));
+            if r.is_err() {
+                writeln!(w, "{}", json!({"ev":"ttstep","fen":crate::proj::project(&pos),"depth":d,"panic":true})).ok();
+                break;
+            }
+            let mut after: HashMap<u64, (u8, String)> = HashMap::new();
+            for e in s.verif_tt_entries() {
+                after.insert(e.hash_key, (e.depth, format!("{}:{:?}:{:?}", e.eval, e.best_move.map(|m| m.to_algebraic()), e.bounds)));
+            }
+            let mut changed = vec![];
+            let (mut kept, mut gone) = (0u64, 0u64);
+            for (k, (db, pb)) in before.iter() {
+                match after.get(k) {
+                    None => gone += 1,
+                    Some((da, pa)) => {
+                        if da == db && pa == pb {
+                            kept += 1;
+                        } else {
+                            changed.push(json!([format!("{:016x}", k), db, da]));
+                        }
+                    }
+                }
+            }
+            let new = after.keys().filter(|k| !before.contains_key(k)).count();
+            writeln!(w, "{}", json!({"ev":"ttstep","fen":crate::proj::project(&pos),"depth":d,"changed":changed,"kept":kept,"gone":gone,"new":new})).ok();
+            before = after;
+        }
+    }
+    w.flush().ok();
+    0
+}
